@@ -43,15 +43,18 @@ class Ctx:
         self.trusted = ['clang-14 front end and -O0 code generation', 'opt-14 mem2reg',
                         'lib/irdb.py IR reader (exit 2 on any construct it does not understand)']
         self.exhaustive = False
+        self.ndebug = os.environ.get('VERIF_NDEBUG', '1') != '0'
         self.extra = {}
 
     # ---- substrate
-    def build(self, ndebug=True):
+    def build(self, ndebug=None):
+        ndebug = self.ndebug if ndebug is None else ndebug
         if ndebug not in self._builds:
             self._builds[ndebug] = irdb.Build(self.root, ndebug=ndebug).compile_all()
         return self._builds[ndebug]
 
-    def prog(self, form='ssa', ndebug=True):
+    def prog(self, form='ssa', ndebug=None):
+        ndebug = self.ndebug if ndebug is None else ndebug
         k = (form, ndebug)
         if k not in self._progs:
             self._progs[k] = irdb.Program(self.build(ndebug), form)
@@ -100,11 +103,22 @@ def run_property(prop, tier, root, quiet=False):
     ctx = Ctx(prop, tier, root)
     status = 0
     broken_msg = None
+    ctx2 = None
     try:
         mod = importlib.import_module('props.' + prop.lower())
         mod.run(ctx)
         if not ctx.obs:
             raise AnalysisBroken('no obligations were generated')
+        if tier == 'thorough' and not os.environ.get('VERIF_NO_SECOND_CONFIG'):
+            # second configuration: asserts enabled (-UNDEBUG): every rule is decided again on that CFG
+            ctx2 = Ctx(prop, tier, root)
+            ctx2.ndebug = not ctx.ndebug
+            mod.run(ctx2)
+            for o in ctx2.obs:
+                o.instance = o.instance + ' [%s build]' % ('assert-enabled' if not ctx2.ndebug else 'NDEBUG')
+                ctx.obs.append(o)
+            ctx.evaluations += ctx2.evaluations
+            ctx.extra['configurations'] = ['-DNDEBUG (shipped)', '-UNDEBUG (asserts enabled)']
     except AnalysisBroken as e:
         status = 2
         broken_msg = str(e)
@@ -113,6 +127,28 @@ def run_property(prop, tier, root, quiet=False):
         broken_msg = 'internal error:\n' + traceback.format_exc()
     finally:
         ctx.close()
+        if ctx2 is not None:
+            ctx2.close()
+    # thorough tier: the seeded-fault battery of this property (sensitivity of the rules, recorded in the evidence;
+    # a surviving mutant is a weakness of the checker, not a violation of the repository, and does not change
+    # the verdict)
+    if tier == 'thorough' and status == 0 and root == irdb.repo_root() and not os.environ.get('VERIF_NO_BATTERY'):
+        import subprocess, tempfile
+        tf = tempfile.NamedTemporaryFile(suffix='.json', delete=False)
+        tf.close()
+        r = subprocess.run([sys.executable, os.path.join(VERIF, 'selftest', 'run.py'), '--prop', prop, '-j', '12',
+                            '--json', tf.name], capture_output=True, text=True,
+                           env=dict(os.environ, VERIF_NO_SECOND_CONFIG='1', VERIF_NO_BATTERY='1'))
+        try:
+            res = json.load(open(tf.name))
+        except Exception:
+            res = []
+        os.unlink(tf.name)
+        ctx.extra['seeded_fault_battery'] = {
+            'mutants': len(res), 'killed': sum(1 for x in res if x['status'] == 'killed'),
+            'skipped': [x['name'] for x in res if x['status'] == 'skipped'],
+            'not_killed': [x['name'] for x in res if x['status'] not in ('killed', 'skipped')]}
+        ctx.evaluations += len(res)
     wall = time.time() - t0
     known = [k for k in load_known() if k.get('property') == prop and k.get('status') == 'known']
     viol = [o for o in ctx.obs if not o.ok]
@@ -198,6 +234,10 @@ def run_property(prop, tier, root, quiet=False):
             print('  %-40s %4d/%-4d' % (r, v[1], v[0]))
         for l in lines:
             print(l)
+        if 'seeded_fault_battery' in ctx.extra:
+            bt = ctx.extra['seeded_fault_battery']
+            print('  seeded-fault battery: %d/%d mutants killed%s' % (bt['killed'], bt['mutants'],
+                  (', NOT killed: %s' % bt['not_killed']) if bt['not_killed'] else ''))
         if status == 2:
             print('ANALYSIS-BROKEN property=%s: %s' % (prop, broken_msg))
     return status, ctx, lines, broken_msg
